@@ -1,6 +1,7 @@
 package monitor
 
 import (
+	"errors"
 	"fmt"
 	"math"
 	"strings"
@@ -58,7 +59,10 @@ var (
 	primeObj    = []byte(`{"a":1,"b":[2],"c":{"d":3},"e":"f","g":null}`)
 	primeBad    = []byte(`{"a":1,"b":[1,2,{"c":tru`)
 	primeBadArr = []byte(`[1,2,3,`)
+	primeObjOne = []byte(`{"k":1}`)
 )
+
+var errNilMapMisuse = errors.New("ValueReader.HandleObjectValue outside ReadObject")
 
 func bufOf(i int, fb, lb *rjson.Buffer) *rjson.Buffer {
 	switch i % 3 {
@@ -136,6 +140,45 @@ var allAPI = func() []apiCall {
 	add("ValueReader.ReadArray(right after a failed array)", func(d []byte, nb, fb, lb *rjson.Buffer, vr *rjson.ValueReader) (int, error, bool) {
 		vr.ReadArray(primeBadArr)
 		_, p, e := vr.ReadArray(d)
+		return p, e, true
+	})
+	// the exported handler methods of ValueReader called directly, as a wrapping handler of the
+	// caller's own would call them - with whatever data, not only what the machines pass
+	// (seeded change C10r7-m1: index past the end for data that is all whitespace)
+	add("ValueReader.HandleArrayValue(called directly)", func(d []byte, nb, fb, lb *rjson.Buffer, vr *rjson.ValueReader) (int, error, bool) {
+		var own rjson.ValueReader
+		p, e := own.HandleArrayValue(d)
+		return p, e, true
+	})
+	add("ValueReader.HandleObjectValue(called directly from a wrapping handler)", func(d []byte, nb, fb, lb *rjson.Buffer, vr *rjson.ValueReader) (int, error, bool) {
+		var own rjson.ValueReader
+		var p int
+		var e error
+		called := false
+		// inside a real traversal (so that the reader's result map exists), the wrapping handler hands
+		// the reader the bytes under test instead of the member's
+		own.ReadObject(primeObjOne)
+		rjson.HandleObjectValues(primeObjOne, rjson.ObjectValueHandlerFunc(func(k, v []byte) (int, error) {
+			if !called {
+				called = true
+				func() {
+					defer func() {
+						if r := recover(); r != nil {
+							if fmt.Sprint(r) == "assignment to entry in nil map" {
+								p, e = 0, errNilMapMisuse // a reader that is not inside ReadObject: receiver misuse, outside the property
+								return
+							}
+							panic(r)
+						}
+					}()
+					p, e = own.HandleObjectValue(k, d)
+				}()
+			}
+			return 0, nil
+		}), nil)
+		if e == errNilMapMisuse {
+			return 0, e, false
+		}
 		return p, e, true
 	})
 	add("ReadString(nil)", func(d []byte, nb, fb, lb *rjson.Buffer, vr *rjson.ValueReader) (int, error, bool) {
